@@ -450,5 +450,43 @@ class GetAllLoopedIds(Target):
         return []
 
 
-TARGETS = [GetAllLoopedIds(), NextIterationKeepsStoredDocument(), DiscoverPlaceholders(), ComputeDoWhileState(), MapPlaceholder(), LoopedReferencePaths(), RewriteComponents(), InstantiateDoWhile()]
+class RewriteAllReferences(Target):
+    """Inside iteration i every reference of a looped component to ANOTHER looped component is renamed to that component's
+    instance of the SAME iteration (i#name, at the loop's stage offset); aggregate loop references (loopref/loopoutput),
+    references to components outside the loop and plain files are left alone.  (Concrete texts: bounded; the iteration
+    number is 0, 3, 12 or 120.)"""
+    prop = 'C05'
+    name = 'rewrite_all_references'
+    file = F
+    qualname = 'rewrite_all_references'
+    set_iter = 'sorted-repr'
+    pure = ('FlowIR.discover_reference_strings', 'FlowIR.ParseDataReferenceFull', 'FlowIR.compile_reference', 'rewrite_reference',
+            're.sub', 're.escape')
+    compare_return = False
+    trusted = ["FlowIR.discover_reference_strings / rewrite_reference / re (native on concrete strings; C09 for the parsers)"]
+    assumptions = ["BOUNDED: concrete component names; one mention per reference (a reference repeated verbatim in one string is "
+                   "only rewritten once by the code: DESIGN 14.10)"]
+
+    def setup(self, c):
+        it = c.one_of('iteration', [0, 3, 12, 120])
+        offset = c.one_of('import_to_stage', [0, 1])
+        spelling = c.one_of('spelling', ['absolute', 'relative'])
+        a = 'stage0.A' if spelling == 'absolute' else 'A'
+        value = 'run %s:ref %s/out.txt:copy stage0.B:output data/x.dat:copy stage0.A:loopref' % (a, a)
+        known = {(offset, 'outside')}
+        looped = {(offset, 'A'), (offset, 'B')}
+        return State(args=[value, {}, known, 0, offset], kwargs={'iter_number': it, 'looped_ids': looped}, it=it, offset=offset)
+
+    def ensures(self, c, st, out):
+        if out.kind == 'raise':
+            return [('no-exception', False)]
+        i, o = st.it, st.offset
+        want = 'run stage%d.%d#A:ref stage%d.%d#A/out.txt:copy stage%d.%d#B:output data/x.dat:copy stage%d.A:loopref' % (o, i, o, i, o, i, o)
+        return [('looped-references-point-to-the-same-iteration-others-are-left-alone', out.value == want)]
+
+    def cross_compare(self, *a):
+        return []
+
+
+TARGETS = [RewriteAllReferences(), GetAllLoopedIds(), NextIterationKeepsStoredDocument(), DiscoverPlaceholders(), ComputeDoWhileState(), MapPlaceholder(), LoopedReferencePaths(), RewriteComponents(), InstantiateDoWhile()]
 LEMMAS = []
